@@ -201,7 +201,7 @@ def gen_rob(rng, det) -> Rob:
 def gen_event(rng: random.Random, evt_no: int) -> Event:
     dets = []
     for _ in range(rng.choice([0, 1, 2, 3, 4, 5, 6])):
-        did = rng.choice([0xA1, 0xA2, 0xA3, 0xA4, 0xA5, 0x7C, 0xA1, 0xA3, 0x55, 0xFFFF, 0xA6])
+        did = rng.choice([0xA1, 0xA2, 0xA3, 0xA4, 0xA5, 0x7C, 0xA1, 0xA3, 0x55, 0xFFFF, 0xA6, 0x01A1, 0x5AA3, 0xFFA2, 0x017C, 0xA100])   # incl. unknown 16-bit ids whose low / high byte is a known id
         name = {v: k for k, v in SUBDET.items()}.get(did, "trg")
         roses = [Ros(robs=[gen_rob(rng, name) for _ in range(rng.choice([0, 1, 1, 2, 4]))],
                      status=[rng.getrandbits(32) for _ in range(rng.choice([0, 0, 1]))],
